@@ -97,7 +97,7 @@ def bb_case(rng, tier, kind=None, zoom_mode=None, style=None, invalid=False, nqu
         per.append((es, length))
     if invalid:
         k = rng.randrange(len(inp))
-        how = rng.choice(["unsorted", "start>end", "start>=len", "unknown", "chromorder"])
+        how = rng.choice(["unsorted", "start>end", "start>=len", "unknown", "chromorder", "split"])
         tags.append("invalid:" + how)
         if how == "unsorted":
             inp[k][1] += 50; inp[k][2] += 50
@@ -108,6 +108,10 @@ def bb_case(rng, tier, kind=None, zoom_mode=None, style=None, invalid=False, nqu
             inp[k][1] = L + rng.choice([0, 5]); inp[k][2] = inp[k][1] + 3
         elif how == "unknown":
             sizes = [s for s in sizes if s[0] != inp[k][0]] or sizes
+        elif how == "split":
+            # the first chromosome comes back after the others (refused since /repo 6b10d42)
+            if len(names) > 1:
+                inp.append(list(inp[0])); o[6] = 0
         else:
             inp = inp[::-1] if len(names) > 1 else inp
     if rng.random() < 0.3:
